@@ -1,14 +1,17 @@
 #!/bin/sh
-# tools/try_mutation.sh <patch.diff> <PROP> [check args...]: apply a seeded change to /repo,
-# run the check, and always undo it.
+# tools/try_mutation.sh <patch.diff> <PROP> [check args...]: apply a seeded change to /repo (or to the scratch
+# worktree named by TRY_REPO, so that /repo stays free), run the check, and always undo it.
 P=$1; shift
 PROP=$1; shift
-cd /repo || exit 2
+R=${TRY_REPO:-/repo}
+cd "$R" || exit 2
 if [ -n "$(git status --porcelain --untracked-files=no)" ]; then echo "repo not clean"; exit 2; fi
 git apply "$P" || { echo "patch does not apply"; exit 2; }
 cd /verif
-VERIF_NO_EVIDENCE=1 ./check "$PROP" "$@" > /tmp/try_mut.out 2>&1
+O=/tmp/try_mut_$$.out
+VERIF_REPO=$R VERIF_NO_EVIDENCE=1 ./check "$PROP" "$@" > $O 2>&1
 RC=$?
-git -C /repo checkout -- .
-grep -E "^(VIOLATION|HARNESS|violation of|runs=)" /tmp/try_mut.out | cut -c1-300
+git -C "$R" checkout -- .
+grep -E "^(VIOLATION|HARNESS|violation of|runs=)" $O | cut -c1-300
+rm -f $O
 echo "exit=$RC"
